@@ -312,6 +312,8 @@ def generate(rng, tier):
         cases += _batches('long-slices', cap, 8, calls, size=5)
     cases += view_cases(rng, [8, 16] if not big else [4, 8, 16, 32], W, 24 if not big else 120)
     cases += random_cases(rng, 400 if not big else 6000)
+    # the Coq side evaluates consecutive slices of this list in parallel: interleave one-call lines and batches
+    rng.shuffle(cases)
     return cases
 
 
